@@ -222,6 +222,58 @@ def check_at(tree, start, rec, nt=False):
 
     if rec.failed:
         return  # never drive a tree that already misbehaved any further
+    # ---- the results are iterators, and several traversals of one tree may be alive at once ----------
+    def make_it(m):
+        return tree.iterator(m) if is_tree else start.iterator(m)
+
+    all_methods = list(ORDERED) + ([IterMethod.UNORDERED, IterMethod.RANDOM_ORDER] if is_tree else [])
+    for m in all_methods:
+        it = make_it(m)
+        ev += 1
+        try:
+            stepwise = []
+            if iter(it) is not it:
+                rec.fail(f"iter:{m.value}:not-an-iterator", repr(type(it)))
+                break
+            while True:
+                try:
+                    stepwise.append(next(it))
+                except StopIteration:
+                    break
+                if len(stepwise) > len(branch_pre) + 1:
+                    break
+        except Exception as e:  # noqa: BLE001
+            rec.fail(f"iter:{m.value}:next()-raises", repr(e)[:120])
+            break
+        if sorted(ids(stepwise)) != sorted(ids(branch_pre)):
+            rec.fail(f"iter:{m.value}:consumed-with-next()", {"got": names(stepwise), "exp": names(branch_pre)})
+            break
+    if rec.failed:
+        return
+    if len(branch_pre) >= 2:
+        k = len(branch_pre)
+        pairs = [(ORDERED[i % len(ORDERED)], ORDERED[(i * 3 + 1 + k) % len(ORDERED)]) for i in range(len(ORDERED))]
+        for m1, m2 in pairs:
+            # two traversals consumed in lock step, and one that is abandoned after its first node
+            ev += 1
+            it1, it2 = make_it(m1), make_it(m2)
+            got1, got2 = [], []
+            for a, b in zip(it1, it2):
+                got1.append(a)
+                got2.append(b)
+            e1, e2 = ref_order(m1, kids, roots), ref_order(m2, kids, roots)
+            if ids(got1) != ids(e1) or ids(got2) != ids(e2):
+                rec.fail("iter:two-traversals-in-lock-step", {"methods": [m1.value, m2.value], "got": [names(got1), names(got2)], "exp": [names(e1), names(e2)]})
+                break
+            dropped = make_it(m1)
+            next(dropped)
+            got = list(make_it(m2))
+            if ids(got) != ids(e2):
+                rec.fail("iter:after-an-abandoned-traversal", {"abandoned": m1.value, "then": m2.value, "got": names(got), "exp": names(e2)})
+                break
+            del dropped
+    if rec.failed:
+        return
     # ---- visit ---------------------------------------------------------------------
     def visit(m, add_self, cb, memo=None):
         with warnings.catch_warnings():
